@@ -8,6 +8,19 @@
 //! bounded-map reference model. No state merging (the counters are hidden state), so a state
 //! is the history that reaches it.
 //!
+//! Boundary members of the quantifier's classes are part of the grid: `max_entries` "from 1
+//! up" includes `usize::MAX` (the spelling of "limit by bytes only"); "TTLs far above the
+//! elapsed time" includes `Duration::MAX`, whose expiry instant no clock can represent
+//! (`put_with_ttl(.., Duration::MAX)` in the TTL-extreme configurations, a class of its own in
+//! signatures); "elapsed time" includes the cleanup interval of the disk cache built with its
+//! background tasks (`new_with_background_tasks`, the constructor the multi-layer cache uses):
+//! there the alphabet has `tick` = the interval elapses and the cleanup task runs (tokio's
+//! paused clock is advanced; the task cannot run at any other moment). For the model a tick
+//! collects expired entries (which was possible at any moment anyway) and may evict any
+//! entries when more than `max_files` are resident — `put` itself enforces no limit on disk.
+//! Configuration dimensions the quantifier does not name (directory nesting depth, what a
+//! `default_ttl` of `None` stands for) are not varied.
+//!
 //! The oracle is exactly the statement of the property and nothing more:
 //!
 //! 1. *Map clause.* `get(k)` = `Some(v)` only if `v` is the value of the latest successful
@@ -34,8 +47,15 @@
 //!    when the implementation collects expired entries) `size()`, `stats().entry_count` and
 //!    `stats().memory_usage_bytes` equal the number / total length of the values the pass
 //!    returned. Before settling the figures may additionally count entries that were put
-//!    with ttl 0 and not yet touched (DESIGN §6.3); under-counting before settling (a fresh
-//!    DiskCache instance has not indexed its directory yet) is not judged.
+//!    with ttl 0 and not yet touched (DESIGN §6.3), and they may not be *below* what the pass
+//!    returns (a get adds nothing, so whatever it returns was retrievable when the figures
+//!    were read). One family of under-counts is expected on this tree and kept from pruning
+//!    the exploration: a DiskCache created on a filled directory keeps an empty index until
+//!    keys are read (`*-undercount-after-reopen`). Those are *soft*: recorded, the history
+//!    is extended as usual, and after the exploration each kind is reported once — the
+//!    smallest history (length, then canonical form) over all plain disk configurations,
+//!    confirmed and minimised with the clause made strict. Every other under-count is an
+//!    ordinary violation.
 //! 4. *Persistence clause* (DiskCache): `Reopen` replaces the instance by a new one on the
 //!    same directory and does not change the model, so clause 1 demands that a ttl = 1 h /
 //!    default-ttl value is returned by the new instance and a ttl = 0 value is not.
@@ -78,6 +98,8 @@ const REPEATS_PLAIN: usize = 3;
 /// Confirmed (history → step, clause) verdicts; a later call for the same history (the
 /// engine's minimiser and its replay-before-report) executes it once more and compares.
 const MEMO_CAP: usize = 300_000;
+/// Candidate histories kept per soft finding kind.
+const SOFT_KEEP: usize = 6;
 
 static VICTIM_DEPENDENT: AtomicU64 = AtomicU64::new(0);
 /// Vacuity counters: how often the interesting paths were really taken (sharded per thread
@@ -86,10 +108,14 @@ const SEEN_HIT: usize = 0; // get answered with the latest value
 const SEEN_EVICTED: usize = 1; // live key answered "nothing", excused by a limit
 const SEEN_EXPIRED_MISS: usize = 2; // ttl-0 key answered "nothing"
 const SEEN_HIT_AFTER_REOPEN: usize = 3; // latest value returned by a new disk instance
+const SEEN_TICK_REMOVED: usize = 4; // a cleanup tick deleted at least one cache file
+const SEEN_MAX_TTL_PUT: usize = 5; // put_with_ttl(Duration::MAX) was executed
+const SEEN_MAX_TTL_HIT: usize = 6; // a value stored with ttl = Duration::MAX was returned
+const SEEN_N: usize = 7;
 
 #[repr(align(64))]
-struct Shard([AtomicU64; 4]);
-static SHARDS: [Shard; 64] = [const { Shard([AtomicU64::new(0), AtomicU64::new(0), AtomicU64::new(0), AtomicU64::new(0)]) }; 64];
+struct Shard([AtomicU64; SEEN_N]);
+static SHARDS: [Shard; 64] = [const { Shard([const { AtomicU64::new(0) }; SEEN_N]) }; 64];
 static NEXT_SHARD: AtomicU64 = AtomicU64::new(0);
 thread_local! {
     static SHARD_ID: usize = (NEXT_SHARD.fetch_add(1, Ordering::Relaxed) % 64) as usize;
@@ -121,6 +147,9 @@ pub enum Ttl {
     Zero,
     /// `put_with_ttl(.., 1 h)` — never expires during a run
     Hour,
+    /// `put_with_ttl(.., Duration::MAX)` — the far end of "far above the elapsed time": the
+    /// expiry instant lies beyond what the clocks can represent; never expires
+    Max,
 }
 
 #[derive(Clone, PartialEq, Eq)]
@@ -132,6 +161,9 @@ pub enum Op {
     Clear,
     /// disk only: drop the instance, create a new one on the same directory
     Reopen,
+    /// disk cache with background tasks only: the cleanup interval elapses (tokio's paused
+    /// clock is advanced past it and the cleanup task runs to its next wait)
+    Tick,
 }
 
 impl std::fmt::Debug for Op {
@@ -142,6 +174,7 @@ impl std::fmt::Debug for Op {
                     Ttl::Default => "put",
                     Ttl::Zero => "put_ttl0",
                     Ttl::Hour => "put_ttl1h",
+                    Ttl::Max => "put_ttlmax",
                 };
                 write!(f, "{name}({},{size})", KEYS[*k as usize])
             }
@@ -150,6 +183,7 @@ impl std::fmt::Debug for Op {
             Op::Remove(k) => write!(f, "remove({})", KEYS[*k as usize]),
             Op::Clear => write!(f, "clear"),
             Op::Reopen => write!(f, "reopen"),
+            Op::Tick => write!(f, "tick"),
         }
     }
 }
@@ -162,6 +196,9 @@ fn parse_op(s: &str) -> Option<Op> {
     if s == "reopen" {
         return Some(Op::Reopen);
     }
+    if s == "tick" {
+        return Some(Op::Tick);
+    }
     let open = s.find('(')?;
     let name = &s[..open];
     let args: Vec<&str> = s[open + 1..].trim_end_matches(')').split(',').collect();
@@ -171,11 +208,12 @@ fn parse_op(s: &str) -> Option<Op> {
         "get" => Op::Get(k),
         "contains" => Op::Contains(k),
         "remove" => Op::Remove(k),
-        "put" | "put_ttl0" | "put_ttl1h" => {
+        "put" | "put_ttl0" | "put_ttl1h" | "put_ttlmax" => {
             let size: u32 = args.get(1)?.trim().parse().ok()?;
             let ttl = match name {
                 "put" => Ttl::Default,
                 "put_ttl0" => Ttl::Zero,
+                "put_ttlmax" => Ttl::Max,
                 _ => Ttl::Hour,
             };
             Op::Put { k, size, ttl }
@@ -187,8 +225,14 @@ fn parse_op(s: &str) -> Option<Op> {
 #[derive(Clone, Debug, PartialEq)]
 pub enum Kind {
     Mem { policy: EvictionPolicy, max_entries: usize, max_bytes: Option<usize> },
-    Disk { subdirs: bool },
+    /// `background`: built with `new_with_background_tasks` (what `MultiLayerCacheImpl` uses
+    /// for its disk layers) on a runtime with a paused clock; `max_files` is only enforced by
+    /// the background cleanup
+    Disk { subdirs: bool, background: bool, max_files: usize },
 }
+
+/// `max_files` of the disk configurations that never reach it.
+const DISK_MAX_FILES: usize = 100_000;
 
 pub struct Subject {
     pub kind: Kind,
@@ -200,6 +244,13 @@ pub struct Subject {
     pub sizes_ttl0: Vec<u32>,
     /// value sizes for `put_with_ttl(1 h)`
     pub sizes_hour: Vec<u32>,
+    /// value sizes for `put_with_ttl(Duration::MAX)`
+    pub sizes_max: Vec<u32>,
+    /// false: an under-count by an instance that was created on a filled directory is recorded
+    /// in `soft` and the history is explored further; true (minimiser, replay): it is a violation
+    pub undercount_hard: bool,
+    /// kind → (occurrences, the smallest histories by (length, canonical form))
+    pub soft: Mutex<std::collections::BTreeMap<String, (u64, Vec<(usize, String, Vec<Op>)>)>>,
     pub seed: u64,
     /// exact history → (step, clause) of violations confirmed by repeated execution
     pub memo: Mutex<HashMap<String, (usize, String)>>,
@@ -238,6 +289,8 @@ struct Info {
     val: Bytes,
     size: u64,
     expired: bool,
+    /// stored with ttl = Duration::MAX (vacuity counter only)
+    max_ttl: bool,
 }
 
 /// Why the model holds no value for a key (only used to name the violated clause).
@@ -332,7 +385,7 @@ impl Model {
             }
         }
         self.poss = np;
-        self.info[k as usize] = Some(Info { val: val.clone(), size, expired });
+        self.info[k as usize] = Some(Info { val: val.clone(), size, expired, max_ttl: false });
         self.tainted[k as usize] = false;
         self.puts.push((k, val));
         self.close_under_expiry();
@@ -377,6 +430,33 @@ impl Model {
         }
     }
 
+    /// The background cleanup ran: it collects expired entries (already possible at any
+    /// moment, see `close_under_expiry`) and, when more than `max_files` entries are resident,
+    /// evicts down to a lower mark — which entries is its business: any subset may remain.
+    fn tick(&mut self, max_files: usize) {
+        let mut np: u16 = 0;
+        for m in 0..16u8 {
+            if self.poss & (1 << m) == 0 {
+                continue;
+            }
+            if (m.count_ones() as usize) > max_files {
+                self.limit_seen = true;
+                let mut s = m;
+                loop {
+                    np |= 1 << s;
+                    if s == 0 {
+                        break;
+                    }
+                    s = (s - 1) & m;
+                }
+            } else {
+                np |= 1 << m;
+            }
+        }
+        self.poss = np;
+        self.close_under_expiry();
+    }
+
     fn held_in_all(&self, k: u8) -> bool {
         let bit = 1u8 << k;
         (0..16u8).all(|m| self.poss & (1 << m) == 0 || m & bit != 0)
@@ -395,6 +475,9 @@ impl Model {
                 match &self.info[ku] {
                     Some(i) if !i.expired && i.val == *v => {
                         tally(SEEN_HIT);
+                        if i.max_ttl {
+                            tally(SEEN_MAX_TTL_HIT);
+                        }
                         if self.reopened {
                             tally(SEEN_HIT_AFTER_REOPEN);
                         }
@@ -549,12 +632,47 @@ fn open_cache(kind: &Kind, dir: &Path) -> Result<Box<dyn AsyncCache<TKey>>, Stri
             cfg.default_ttl = None; // put() then uses the built-in 1 h
             MemoryCache::<TKey>::new(cfg).map(|c| Box::new(c) as Box<dyn AsyncCache<TKey>>).map_err(|e| e.to_string())
         }
-        Kind::Disk { subdirs } => {
-            let mut cfg = DiskCacheConfig::new(dir).with_max_files(100_000).with_subdirectories(*subdirs, if *subdirs { 2 } else { 0 });
+        Kind::Disk { subdirs, background, max_files } => {
+            let mut cfg = DiskCacheConfig::new(dir).with_max_files(*max_files).with_subdirectories(*subdirs, if *subdirs { 2 } else { 0 });
             cfg.max_disk_bytes = None;
-            DiskCache::<TKey>::new(cfg).map(|c| Box::new(c) as Box<dyn AsyncCache<TKey>>).map_err(|e| e.to_string())
+            if *background {
+                // the cleanup task ticks every CLEANUP_INTERVAL of the paused clock (`Op::Tick`
+                // advances it); the sync task fires once with the first tick and then never again
+                cfg.cleanup_interval = CLEANUP_INTERVAL;
+                cfg.sync_interval = Duration::from_secs(10 * 365 * 24 * 3600);
+                DiskCache::<TKey>::new_with_background_tasks(cfg).map(|c| Box::new(c) as Box<dyn AsyncCache<TKey>>).map_err(|e| e.to_string())
+            } else {
+                DiskCache::<TKey>::new(cfg).map(|c| Box::new(c) as Box<dyn AsyncCache<TKey>>).map_err(|e| e.to_string())
+            }
         }
     }
+}
+
+const CLEANUP_INTERVAL: Duration = Duration::from_secs(300);
+
+thread_local! {
+    // Runtime of the disk configurations with background tasks: tokio's clock is paused, so the
+    // cleanup task runs exactly when `Op::Tick` advances the clock past its interval and never
+    // in between. TTLs use std's clocks and stay real.
+    static PAUSED_RT: tokio::runtime::Runtime = tokio::runtime::Builder::new_current_thread()
+        .enable_all()
+        .start_paused(true)
+        .build()
+        .expect("tokio runtime (paused clock)");
+}
+
+/// The background sync task of `DiskCache` runs `sync(1)` on its first tick. Flushing the whole
+/// machine once per history is no part of the cache's state: with an empty PATH the spawn fails
+/// and the task carries on (same arrangement as the C12 workers). Called before any thread of
+/// the check exists.
+fn disable_sync_command() {
+    // SAFETY: called at the start of `run` / `replay`, on the only thread of the process.
+    unsafe { std::env::set_var("PATH", "/nonexistent-c10") };
+}
+
+fn count_files(dir: &Path) -> usize {
+    let Ok(rd) = std::fs::read_dir(dir) else { return 0 };
+    rd.flatten().map(|e| if e.path().is_dir() { count_files(&e.path()) } else { 1 }).sum()
 }
 
 impl Subject {
@@ -565,9 +683,13 @@ impl Subject {
     fn limits(&self) -> (usize, Option<u64>) {
         match &self.kind {
             Kind::Mem { max_entries, max_bytes, .. } => (*max_entries, max_bytes.map(|b| b as u64)),
-            // DiskCache::new starts no background task and put() enforces no limit: a plain map
-            Kind::Disk { .. } => (100_000, None),
+            // put() enforces no limit (only the background cleanup does, see `Op::Tick`): a plain map
+            Kind::Disk { .. } => (DISK_MAX_FILES, None),
         }
+    }
+
+    fn background(&self) -> bool {
+        matches!(self.kind, Kind::Disk { background: true, .. })
     }
 
     fn bound_clause_applies(&self) -> bool {
@@ -593,11 +715,32 @@ impl Subject {
         }
     }
 
+    /// Remember a soft finding: per kind the count and the `SOFT_KEEP` smallest histories.
+    fn record_soft(&self, kind: &str, hist: &[Op]) {
+        let mut g = self.soft.lock().unwrap();
+        let e = g.entry(kind.to_string()).or_insert_with(|| (0, Vec::new()));
+        e.0 += 1;
+        if e.1.len() == SOFT_KEEP && e.1.last().is_some_and(|w| w.0 < hist.len()) {
+            return;
+        }
+        let c = self.canon(hist);
+        if e.1.iter().any(|w| w.1 == c) {
+            return;
+        }
+        e.1.push((hist.len(), c, hist.to_vec()));
+        e.1.sort_by(|a, b| (a.0, &a.1).cmp(&(b.0, &b.1)));
+        e.1.truncate(SOFT_KEEP);
+    }
+
     /// One fresh execution of `hist` on a fresh real cache and a fresh model.
     fn run_once(&self, hist: &[Op]) -> (SeqRun, bool) {
         let scratch = if self.is_disk() { Some(Scratch::new("c10")) } else { None };
         let dir = scratch.as_ref().map(|s| s.path.join("cache")).unwrap_or_else(|| "/nonexistent-c10".into());
-        let res = catch(|| block_on(self.run_async(hist, &dir)));
+        let res = if self.background() {
+            catch(|| PAUSED_RT.with(|rt| rt.block_on(self.run_async(hist, &dir))))
+        } else {
+            catch(|| block_on(self.run_async(hist, &dir)))
+        };
         match res {
             Ok(r) => r,
             Err(msg) => {
@@ -645,10 +788,19 @@ impl Subject {
                         Ttl::Default => cache.put(key, v.clone()).await,
                         Ttl::Zero => cache.put_with_ttl(key, v.clone(), Duration::ZERO).await,
                         Ttl::Hour => cache.put_with_ttl(key, v.clone(), Duration::from_secs(3600)).await,
+                        Ttl::Max => {
+                            tally(SEEN_MAX_TTL_PUT);
+                            cache.put_with_ttl(key, v.clone(), Duration::MAX).await
+                        }
                     };
                     match r {
                         Ok(()) => {
                             model.put_ok(*k, v, *ttl == Ttl::Zero);
+                            if *ttl == Ttl::Max {
+                                if let Some(i) = model.info[*k as usize].as_mut() {
+                                    i.max_ttl = true;
+                                }
+                            }
                             obs.push('p');
                         }
                         Err(_) => {
@@ -700,6 +852,23 @@ impl Subject {
                     };
                     model.reopened = true;
                     obs.push('o');
+                }
+                Op::Tick => {
+                    let max_files = match &self.kind {
+                        Kind::Disk { max_files, .. } => *max_files,
+                        Kind::Mem { .. } => usize::MAX,
+                    };
+                    let before = count_files(dir);
+                    tokio::time::advance(CLEANUP_INTERVAL + Duration::from_secs(1)).await;
+                    for _ in 0..3 {
+                        tokio::task::yield_now().await;
+                    }
+                    let after = count_files(dir);
+                    if after < before {
+                        tally(SEEN_TICK_REMOVED);
+                    }
+                    model.tick(max_files);
+                    obs.push_str(&format!("t{}", before.saturating_sub(after)));
                 }
             }
         }
@@ -771,6 +940,36 @@ impl Subject {
                 if st.memory_usage_bytes as u64 > b + slack_b {
                     return fail(last, "stats-bytes-overcount", format!("before settling stats().memory_usage_bytes = {}; retrievable {b} bytes + at most {slack_b} bytes of untouched expired entries", st.memory_usage_bytes), calls);
                 }
+                // under-count: every value the settling pass returned was retrievable when the
+                // figures were read (gets add nothing), so the figures may not be below them
+                let under = if *sz == 0 && n > 0 {
+                    Some(("size-zero-undercount", format!("before settling size() = 0, but {n} keys return a value")))
+                } else if *sz < n {
+                    Some(("size-undercount", format!("before settling size() = {sz}, but {n} keys return a value")))
+                } else if st.entry_count < n {
+                    Some(("stats-entries-undercount", format!("before settling stats().entry_count = {}, but {n} keys return a value", st.entry_count)))
+                } else if (st.memory_usage_bytes as u64) < b {
+                    Some(("stats-bytes-undercount", format!("before settling stats().memory_usage_bytes = {}, but the retrievable values total {b} bytes", st.memory_usage_bytes)))
+                } else {
+                    None
+                };
+                if let Some((kind, detail)) = under {
+                    if !model.reopened {
+                        return fail(last, kind, detail, calls);
+                    }
+                    // An instance created on a filled directory does not index it (the index
+                    // cannot be rebuilt from file names): reported once per kind with the
+                    // smallest history, and the history is still extended. The configurations
+                    // with background tasks leave this to the plain ones (same code).
+                    let kind = format!("{kind}-after-reopen");
+                    let detail = format!("{detail} (new instance on a directory filled by a previous one)");
+                    if !self.background() {
+                        if self.undercount_hard {
+                            return fail(last, &kind, detail, calls);
+                        }
+                        self.record_soft(&kind, hist);
+                    }
+                }
                 obs.push_str(&format!("|{sz},{},{}", st.entry_count, st.memory_usage_bytes));
             }
             _ => return fail(last, "size-error", "size()/stats() returned Err".into(), calls),
@@ -790,7 +989,8 @@ impl SeqSubject for Subject {
                 max_entries,
                 max_bytes.map_or("none".to_string(), |b| b.to_string())
             ),
-            Kind::Disk { subdirs } => format!("disk(subdirs={subdirs})"),
+            Kind::Disk { subdirs, background: false, .. } => format!("disk(subdirs={subdirs})"),
+            Kind::Disk { subdirs, background: true, max_files } => format!("disk(subdirs={subdirs},background=true,max_files={max_files})"),
         }
     }
 
@@ -844,6 +1044,15 @@ impl SeqSubject for Subject {
         if self.is_disk() {
             a.push(Op::Reopen);
         }
+        // appended last: the indices of everything above stay what they were
+        for s in &self.sizes_max {
+            for k in &self.keys {
+                a.push(Op::Put { k: *k, size: *s, ttl: Ttl::Max });
+            }
+        }
+        if self.background() {
+            a.push(Op::Tick);
+        }
         a
     }
 
@@ -877,9 +1086,11 @@ impl SeqSubject for Subject {
             .map(|o| match o {
                 Op::Put { k, size, ttl } => {
                     // ttl classes of the property: 0 = expired, default / 1 h = never expires
+                    // (ttl = Duration::MAX is a class of its own: "beyond the clock")
                     let name = match ttl {
                         Ttl::Default | Ttl::Hour => "put",
                         Ttl::Zero => "put_ttl0",
+                        Ttl::Max => "put_ttlmax",
                     };
                     format!("{name}({},{})", nm(*k), self.size_class(*size))
                 }
@@ -888,6 +1099,7 @@ impl SeqSubject for Subject {
                 Op::Remove(k) => format!("remove({})", nm(*k)),
                 Op::Clear => "clear".into(),
                 Op::Reopen => "reopen".into(),
+                Op::Tick => "tick".into(),
             })
             .collect();
         parts.join(";")
@@ -950,33 +1162,81 @@ fn mem_subject(policy: EvictionPolicy, max_entries: usize, max_bytes: Option<usi
     // ttl-0 puts: one small and one mid size (enough to move both counters); 1 h puts: one size
     let sizes_ttl0 = if rich { vec![1, 100] } else { vec![100] };
     let sizes_hour = if rich { vec![1] } else { vec![] };
-    Subject { kind: Kind::Mem { policy, max_entries, max_bytes }, keys: (0..nkeys).collect(), sizes, sizes_ttl0, sizes_hour, seed, memo: Mutex::new(HashMap::new()) }
+    Subject {
+        kind: Kind::Mem { policy, max_entries, max_bytes },
+        keys: (0..nkeys).collect(),
+        sizes,
+        sizes_ttl0,
+        sizes_hour,
+        sizes_max: vec![],
+        undercount_hard: false,
+        soft: Mutex::new(Default::default()),
+        seed,
+        memo: Mutex::new(HashMap::new()),
+    }
+}
+
+/// TTL extremes on the memory cache: ttl 0 and ttl = Duration::MAX next to the default.
+fn mem_ttl_subject(seed: u64) -> Subject {
+    let mut s = mem_subject(EvictionPolicy::Lru, 1, None, 2, seed, false);
+    s.sizes = vec![1];
+    s.sizes_ttl0 = vec![1];
+    s.sizes_max = vec![1, 100];
+    s
+}
+
+/// TTL extremes on the disk cache (the colliding key pair only).
+fn disk_ttl_subject(subdirs: bool, seed: u64) -> Subject {
+    let mut s = disk_subject(subdirs, seed, false);
+    s.keys = vec![2, 3];
+    s.sizes = vec![100];
+    s.sizes_ttl0 = vec![1];
+    s.sizes_hour = vec![];
+    s.sizes_max = vec![1];
+    s
+}
+
+/// Disk cache with its background tasks: the cleanup interval may elapse between operations.
+fn disk_background_subject(subdirs: bool, max_files: usize, nkeys: u8, seed: u64) -> Subject {
+    let mut s = disk_subject(subdirs, seed, false);
+    s.kind = Kind::Disk { subdirs, background: true, max_files };
+    s.keys = (0..nkeys).collect();
+    s.sizes = vec![100];
+    s.sizes_ttl0 = vec![1];
+    s.sizes_hour = vec![];
+    s
 }
 
 fn disk_subject(subdirs: bool, seed: u64, rich: bool) -> Subject {
     Subject {
-        kind: Kind::Disk { subdirs },
+        kind: Kind::Disk { subdirs, background: false, max_files: DISK_MAX_FILES },
         // "a" plus the colliding pair; "b" joins in the thorough tier
         keys: if rich { vec![0, 1, 2, 3] } else { vec![0, 2, 3] },
         sizes: if rich { vec![0, 1, 100] } else { vec![0, 100] },
         // 7 = SAME_VALUE_SIZE: byte-identical content re-put under the other TTL class
         sizes_ttl0: vec![1, SAME_VALUE_SIZE],
         sizes_hour: vec![100, SAME_VALUE_SIZE],
+        sizes_max: vec![],
+        undercount_hard: false,
+        soft: Mutex::new(Default::default()),
         seed,
         memo: Mutex::new(HashMap::new()),
     }
 }
 
 pub fn run(tier: Tier, seed: u64) -> i32 {
+    disable_sync_command();
     let rep = Report::new("C10", tier, seed, Level::ModelChecking);
     rep.set_rule(
-        "every history up to the depth bound over {get, put, put_with_ttl(0), put_with_ttl(1h), remove, contains, clear (+reopen for disk)} × keys × value-size classes per configuration, each executed on a fresh real MemoryCache/DiskCache in lock-step with a bounded-map model (set of possible resident sets); no state merging (counters are hidden state), so states = histories; size()/stats() and a get on every key are evaluated at the end of every history (every prefix is a history); every history with ≥1 operation is a distinct non-trivial case",
+        "every history up to the depth bound over {get, put, put_with_ttl(0), put_with_ttl(1h), put_with_ttl(Duration::MAX) (TTL-extreme configurations), remove, contains, clear (+reopen for disk, +'the cleanup interval elapses' for the disk cache with background tasks)} × keys × value-size classes per configuration (max_entries up to usize::MAX), each executed on a fresh real MemoryCache/DiskCache in lock-step with a bounded-map model (set of possible resident sets); no state merging (counters are hidden state), so states = histories; size()/stats() and a get on every key are evaluated at the end of every history (every prefix is a history); every history with ≥1 operation is a distinct non-trivial case",
     );
     rep.assume("reference model: per key the latest successful put since the last remove/clear (value, ttl class) + the set of possible resident sets; a put at a limit (entries ≥ max, bytes ≥ max, or the put would exceed either) may evict any subset");
     rep.assume("ttl classes: ttl 0 is expired at the next call (Instant/SystemTime are monotone non-decreasing), ttl 1 h / default never expires during a run");
     rep.assume("size() and stats() are read-only (atomic loads, directory scan) — read from the code; they are observers after every history rather than alphabet members");
     rep.assume("MemoryCache byte usage is the sum of value lengths (size_bytes = value.len()), the cache's own definition");
     rep.assume("DiskCache::new starts no background task; disk files live on tmpfs; crash behaviour is not this check's subject");
+    rep.assume("disk cache with background tasks (new_with_background_tasks): runs on a current-thread runtime whose tokio clock is paused, so the cleanup task runs exactly when the history's `tick` advances the clock past cleanup_interval (it may run twice per tick; it is idempotent) and never inside another operation; the sync task's sync(1) spawn fails (PATH is emptied for this process) and has no influence on the cache; a tick may evict any entries when more than max_files are resident");
+    rep.assume("an under-count (size()/stats() below what the settling gets return) by an instance created on a filled directory is reported once per kind, with the smallest history over all plain disk configurations, and such histories are still extended; every other under-count is an ordinary violation");
     rep.assume(&format!("a violation is reported only if {REPEATS_EVICTING} (memory cache, some put ran at a limit) / {REPEATS_PLAIN} (otherwise) fresh executions of the same history violate the same clause at the same step (eviction victims are not under the harness's control); every later query for that history executes it once more"));
 
     use EvictionPolicy::{Fifo, Lfu, Lru, Random, Ttl as TtlPol};
@@ -995,11 +1255,18 @@ pub fn run(tier: Tier, seed: u64) -> i32 {
             subjects.push((mem_subject(Lru, UNLIMITED_ENTRIES, None, 3, seed, true), 4));
             subjects.push((disk_subject(false, seed, false), 4));
             subjects.push((disk_subject(true, seed, false), 4));
+            // boundary configurations: no entry limit spelled usize::MAX, TTL extremes, the
+            // disk cache with its background cleanup
+            subjects.push((mem_subject(Lru, usize::MAX, Some(150), 3, seed, false), 4));
+            subjects.push((mem_ttl_subject(seed), 4));
+            subjects.push((disk_ttl_subject(false, seed), 4));
+            subjects.push((disk_background_subject(false, DISK_MAX_FILES, 2, seed), 4));
+            subjects.push((disk_background_subject(true, 1, 2, seed), 4));
         }
         Tier::Thorough => {
             // the whole grid at depth 4
             for policy in [Lru, Lfu, Fifo, Random] {
-                for me in [1usize, 2, 3, UNLIMITED_ENTRIES] {
+                for me in [1usize, 2, 3, UNLIMITED_ENTRIES, usize::MAX] {
                     for mb in [None, Some(1usize), Some(150), Some(1000)] {
                         let nkeys = if me == 3 { 4 } else { 3 };
                         subjects.push((mem_subject(policy.clone(), me, mb, nkeys, seed, false), 4));
@@ -1030,6 +1297,17 @@ pub fn run(tier: Tier, seed: u64) -> i32 {
             subjects.push((disk_subject(true, seed, false), 5));
             subjects.push((disk_subject(false, seed, true), 4));
             subjects.push((disk_subject(true, seed, true), 4));
+            subjects.push((mem_ttl_subject(seed), 6));
+            let mut s = mem_subject(Lfu, 2, Some(150), 3, seed, true);
+            s.sizes_max = vec![1, 100];
+            subjects.push((s, 4));
+            subjects.push((disk_ttl_subject(false, seed), 5));
+            subjects.push((disk_ttl_subject(true, seed), 5));
+            // (a history with background tasks costs about four times a plain disk history)
+            subjects.push((disk_background_subject(false, DISK_MAX_FILES, 2, seed), 5));
+            subjects.push((disk_background_subject(true, 1, 2, seed), 5));
+            subjects.push((disk_background_subject(false, 2, 3, seed), 4));
+            subjects.push((disk_background_subject(true, DISK_MAX_FILES, 3, seed), 4));
         }
     }
 
@@ -1046,7 +1324,7 @@ pub fn run(tier: Tier, seed: u64) -> i32 {
                     rep.machinery_error(&format!("{}: value sizes do not straddle max_memory_bytes", s.config_name()));
                 }
             }
-        } else if !(s.keys.contains(&2) && s.keys.contains(&3)) {
+        } else if !s.background() && !(s.keys.contains(&2) && s.keys.contains(&3)) {
             rep.machinery_error("disk alphabet lacks the colliding pair x.y / x.tmp");
         }
     }
@@ -1066,14 +1344,19 @@ pub fn run(tier: Tier, seed: u64) -> i32 {
             "wall_s": (t0.elapsed().as_secs_f64() * 100.0).round() / 100.0,
         }));
     }
-    rep.extra("bounds", json!({"per_config": per_config, "value_sizes": "0,1,100,limit,limit+1", "ttl_classes": ["0", "1h", "default"]}));
+    report_soft_findings(&subjects, &rep);
+    rep.extra("bounds", json!({"per_config": per_config, "value_sizes": "0,1,100,limit,limit+1", "ttl_classes": ["0", "1h", "default", "Duration::MAX"]}));
     rep.extra("victim_dependent_violations_not_judged", json!(VICTIM_DEPENDENT.load(Ordering::Relaxed)));
     let seen = [
         ("gets_answered_with_latest_value", tally_total(SEEN_HIT)),
         ("gets_answered_nothing_excused_by_a_limit", tally_total(SEEN_EVICTED)),
         ("gets_answered_nothing_for_ttl0_entry", tally_total(SEEN_EXPIRED_MISS)),
         ("gets_answered_with_latest_value_by_new_disk_instance", tally_total(SEEN_HIT_AFTER_REOPEN)),
+        ("cleanup_ticks_that_deleted_a_file", tally_total(SEEN_TICK_REMOVED)),
+        ("puts_with_ttl_duration_max_executed", tally_total(SEEN_MAX_TTL_PUT)),
     ];
+    // (not guarded: zero while such a put cannot succeed)
+    rep.extra("gets_answered_with_a_value_stored_with_ttl_duration_max", json!(tally_total(SEEN_MAX_TTL_HIT)));
     for (name, n) in seen {
         rep.extra(name, json!(n));
         if n == 0 {
@@ -1084,6 +1367,70 @@ pub fn run(tier: Tier, seed: u64) -> i32 {
         rep.machinery_error("vacuous exploration: fewer than 50 distinct observation logs");
     }
     rep.finish()
+}
+
+/// Report the soft findings (see `record_soft`): per kind the smallest history over all
+/// subjects that share a signature configuration, confirmed and minimised with the clause
+/// made strict, replayed once more before it is reported.
+fn report_soft_findings(subjects: &[(Subject, usize)], rep: &Report) {
+    // (sig_config, kind) → (occurrences, candidates (len, canon, subject index, history))
+    let mut all: std::collections::BTreeMap<(String, String), (u64, Vec<(usize, String, usize, Vec<Op>)>)> = Default::default();
+    for (si, (s, _)) in subjects.iter().enumerate() {
+        for (kind, (count, cands)) in s.soft.lock().unwrap().iter() {
+            let e = all.entry((s.sig_config(), kind.clone())).or_insert_with(|| (0, Vec::new()));
+            e.0 += count;
+            for (len, canon, hist) in cands {
+                e.1.push((*len, canon.clone(), si, hist.clone()));
+            }
+        }
+    }
+    let mut counts = serde_json::Map::new();
+    for ((sig_config, kind), (count, mut cands)) in all {
+        counts.insert(format!("{sig_config}|{kind}"), json!(count));
+        cands.sort_by(|a, b| (a.0, &a.1, a.2).cmp(&(b.0, &b.1, b.2)));
+        let mut reported = false;
+        for (_, _, si, hist) in &cands {
+            let src = &subjects[*si].0;
+            let strict = Subject {
+                kind: src.kind.clone(),
+                keys: src.keys.clone(),
+                sizes: src.sizes.clone(),
+                sizes_ttl0: src.sizes_ttl0.clone(),
+                sizes_hour: src.sizes_hour.clone(),
+                sizes_max: src.sizes_max.clone(),
+                undercount_hard: true,
+                soft: Mutex::new(Default::default()),
+                seed: src.seed,
+                memo: Mutex::new(HashMap::new()),
+            };
+            let first = catch(|| strict.run(hist)).ok().and_then(|r| r.violation);
+            let Some((_, k, detail)) = first else { continue };
+            if k != kind {
+                continue;
+            }
+            let core = crate::seq::minimise(&strict, hist, &kind);
+            let again = catch(|| strict.run(&core)).ok().and_then(|r| r.violation);
+            if !matches!(&again, Some((_, k2, _)) if *k2 == kind) {
+                rep.machinery_error(&format!("soft finding {kind} did not reproduce on replay of {core:?}"));
+                continue;
+            }
+            let sig = format!("{sig_config}|{kind}|{}", strict.canon(&core));
+            rep.violation(
+                &kind,
+                &sig,
+                json!({"config": strict.config_name(), "history": format!("{hist:?}"), "core": format!("{core:?}"),
+                       "core_ops": core.iter().map(|o| format!("{o:?}")).collect::<Vec<_>>(),
+                       "histories_with_this_finding": count}),
+                &detail,
+            );
+            reported = true;
+            break;
+        }
+        if !reported {
+            rep.machinery_error(&format!("soft finding {sig_config}|{kind} ({count} histories) could not be confirmed with the clause made strict"));
+        }
+    }
+    rep.extra("undercounts_after_reopen_histories", serde_json::Value::Object(counts));
 }
 
 fn parse_config(cfg: &str) -> Option<Kind> {
@@ -1103,7 +1450,14 @@ fn parse_config(cfg: &str) -> Option<Kind> {
             },
         })
     } else if cfg.starts_with("disk(") {
-        Some(Kind::Disk { subdirs: kv.get("subdirs")? == "true" })
+        Some(Kind::Disk {
+            subdirs: kv.get("subdirs")? == "true",
+            background: kv.get("background").is_some_and(|v| v == "true"),
+            max_files: match kv.get("max_files") {
+                Some(v) => v.parse().ok()?,
+                None => DISK_MAX_FILES,
+            },
+        })
     } else {
         None
     }
@@ -1111,6 +1465,7 @@ fn parse_config(cfg: &str) -> Option<Kind> {
 
 /// Replay a witness: `witness.config` + `witness.core_ops` (Debug form of the ops).
 pub fn replay(w: &serde_json::Value) -> i32 {
+    disable_sync_command();
     let cfg = w["witness"]["config"].as_str().unwrap_or("");
     let Some(kind) = parse_config(cfg) else {
         println!("MACHINERY-ERROR: cannot parse configuration {cfg:?}");
@@ -1127,7 +1482,18 @@ pub fn replay(w: &serde_json::Value) -> i32 {
         }
     }
     let seed: u64 = std::env::var("VERIF_SEED").ok().and_then(|s| s.parse().ok()).unwrap_or(0);
-    let subj = Subject { kind, keys: vec![0, 1, 2, 3], sizes: vec![], sizes_ttl0: vec![], sizes_hour: vec![], seed, memo: Mutex::new(HashMap::new()) };
+    let subj = Subject {
+        kind,
+        keys: vec![0, 1, 2, 3],
+        sizes: vec![],
+        sizes_ttl0: vec![],
+        sizes_hour: vec![],
+        sizes_max: vec![],
+        undercount_hard: true,
+        soft: Mutex::new(Default::default()),
+        seed,
+        memo: Mutex::new(HashMap::new()),
+    };
     println!("replaying on {}: {ops:?}", subj.config_name());
     let r = subj.run(&ops);
     match r.violation {
